@@ -309,6 +309,16 @@ pub fn trusted_paths_ground() -> EvalResult {
         ("empty-memo-list", Box::new(|a| { let m = a.nil(); list(a, &[m]) })),
         ("memo-is-pair", Box::new(|a| { let x = a.new_atom(&[5]).unwrap(); let p = a.new_pair(x, x).unwrap(); let m = list(a, &[p]); list(a, &[m]) })),
         ("memo-list-is-atom", Box::new(|a| { let m = a.new_atom(&[7u8; 32]).unwrap(); list(a, &[m]) })),
+        // something after the memo list (accepted without STRICT_ARGS_COUNT): the hint is still the first memo
+        ("hint-then-extra-argument", Box::new(|a| { let h = a.new_atom(&[9u8; 32]).unwrap(); let m = list(a, &[h]); let x = a.new_atom(&[1]).unwrap(); list(a, &[m, x]) })),
+        ("hint-then-improper-terminator", Box::new(|a| { let h = a.new_atom(&[9u8; 32]).unwrap(); let m = list(a, &[h]); let x = a.new_atom(&[1]).unwrap(); a.new_pair(m, x).unwrap() })),
+        ("short-hint-then-two-extras", Box::new(|a| { let h = a.new_atom(&[4]).unwrap(); let m = list(a, &[h]); let x = a.new_atom(&[1]).unwrap(); let y = a.new_atom(&[2u8; 40]).unwrap(); list(a, &[m, x, y]) })),
+        ("hint-1-byte", Box::new(|a| { let h = a.new_atom(&[0]).unwrap(); let m = list(a, &[h]); list(a, &[m]) })),
+        ("hint-31-bytes", Box::new(|a| { let h = a.new_atom(&[8u8; 31]).unwrap(); let m = list(a, &[h]); list(a, &[m]) })),
+        ("hint-and-more-memos", Box::new(|a| { let h = a.new_atom(&[9u8; 32]).unwrap(); let x = a.new_atom(&[6u8; 50]).unwrap(); let p = a.new_pair(x, x).unwrap(); let m = list(a, &[h, x, p]); list(a, &[m]) })),
+        ("memo-list-improper", Box::new(|a| { let h = a.new_atom(&[9u8; 32]).unwrap(); let x = a.new_atom(&[1]).unwrap(); let m = a.new_pair(h, x).unwrap(); list(a, &[m]) })),
+        ("tail-is-atom", Box::new(|a| a.new_atom(&[1]).unwrap())),
+        ("long-first-memo-then-short", Box::new(|a| { let h = a.new_atom(&[9u8; 33]).unwrap(); let x = a.new_atom(&[3]).unwrap(); let m = list(a, &[h, x]); list(a, &[m]) })),
     ];
     for (name, build_tail) in shapes {
         res.obligations += 1;
@@ -740,6 +750,7 @@ pub fn run(task: &str) -> Option<EvalResult> {
     match task {
         "trusted_paths_ground" => Some(trusted_paths_ground()),
         "sig_paths_ground" => Some(sig_paths_ground()),
+        "relations_ground" => Some(crate::relations::relations_ground()),
         "pos_v2_hash" => Some(pos_v2_hash()),
         "datalayer_ground" => Some(datalayer_ground()),
         "bls_cache_ground" => Some(bls_cache_ground()),
